@@ -89,6 +89,12 @@ func (r *reloadHAProxy) When(_ any) time.Duration {
 	defer r.mu.Unlock()
 
 	now := time.Now()
+
+	// a reload is already scheduled, join it
+	if r.last.After(now) {
+		return r.last.Sub(now)
+	}
+
 	next := r.last.Add(r.interval)
 
 	// not rate limited, allow to reload now
@@ -97,8 +103,10 @@ func (r *reloadHAProxy) When(_ any) time.Duration {
 		return 0
 	}
 
-	// rate limited, return the remaining time to the next reload
-	return time.Until(next)
+	// rate limited, schedule the next reload and use
+	// it as the start of the following interval
+	r.last = next
+	return next.Sub(now)
 }
 
 func (r *reloadHAProxy) NumRequeues(_ any) int {
